@@ -172,6 +172,8 @@ def check_formats(run: Run, scratch, stats):
             raise RuntimeError(f"vacuous: no ragged {f} collection with the first sequence shortest / longest by more than two lines")
     if tot.get("route_roundtrips", 0) == 0 or not all(any(r["from"]["fam"] == "O" and r["from"]["fmt"] == f for r in recs) for f in ("fasta", "phylip", "paml", "gde", "json")):
         raise RuntimeError("vacuous: no round trip through the other writer routes (family O)")
+    if tot.get("kept_argument_checks", 0) == 0:
+        raise RuntimeError("vacuous: no check of the caller's list after a parse")
     if tot.get("handle_parses", 0) == 0:
         raise RuntimeError("vacuous: no parse from an open text handle positioned after consumed lines")
     if tot.get("default_width_roundtrips", 0) == 0:
@@ -238,6 +240,7 @@ def check(run: Run):
         "writer routes (family O): write(), write_seqs app, to_fasta/to_phylip/to_json strings and FORMATTERS[fmt](dict) must all keep the collection's order; diff kind 'order' = same records, other order",
         "source representations: bytes, str path, Path, list / tuple / generator of lines, open text handle, open text handle after k consumed preamble lines "
         "(plain/.gz/.bz2 through open_), utf-16 handle, CR-only line ends; a handle at position k means the remaining lines",
+        "arguments the caller keeps: the list of lines given to a parser, the dict / order list given to a formatter and the collection written must read as before after the call; a second parse of the same list gives the same records",
         "PHYLIP truncation is the writer's: names longer than 9 characters keep their first 9 (format/phylip.py)",
         "sequences use upper-case residues and '-' (the bytes FASTA parser upper-cases by documented design); residues A/C of the model are instantiated per case as DNA A/C, RNA A/U or protein M/K",
         "zero-length sequences are only exercised in ragged unaligned collections (FASTA, GDE, JSON) and reported under the class empty-seq",
